@@ -77,7 +77,7 @@ theorem request_steps (size : SyncOp → Nat) (limit : Nat) (urg : Urgency) (S :
     · rename_i ha
       have ha' : f.askSnap = false := by simpa using ha
       split
-      · rename_i hs; exact .one (.addSnap S r f h hs)
+      · rename_i hs; exact .one (.addSnap S r f h hs ha')
       rename_i hs
       have hs' : f.snapDue = false := by simpa using hs
       split
@@ -89,12 +89,12 @@ theorem request_steps (size : SyncOp → Nat) (limit : Nat) (urg : Urgency) (S :
       · rename_i hp
         have hp' : f.pulled = true := by simpa using hp
         split
-        · rename_i he; exact .one (.finish S r f h hp' he)
+        · rename_i he; exact .one (.finish S r f h hp' ha' he)
         · rename_i hne
           simp only
           split
           · rename_i hk
-            refine .one (.pushOk S r f _ _ h hp' (batchLen_pos size limit f.L hne)
+            refine .one (.pushOk S r f _ _ h hp' ha' (batchLen_pos size limit f.L hne)
               (batchLen_le size limit f.L) hk ?_)
             intro hsd
             simp only [Bool.and_eq_true, decide_eq_true_eq] at hsd
@@ -103,12 +103,12 @@ theorem request_steps (size : SyncOp → Nat) (limit : Nat) (urg : Urgency) (S :
             split
             · rename_i hreq
               have h1 : Step S { S with err := true } := by
-                have := Step.pushReject S r f h hp' hne hk
+                have := Step.pushReject S r f h hp' ha' hne hk
                 rwa [if_pos hreq] at this
               have hfl : ({ S with err := true } : Sys).reps r = S.reps r := rfl
               exact .tail (.one h1) (.abort _ r f (by rw [hfl]; exact h))
             · rename_i hreq
-              have := Step.pushReject S r f h hp' hne hk
+              have := Step.pushReject S r f h hp' ha' hne hk
               rw [if_neg hreq] at this
               exact .one this
 
